@@ -187,7 +187,11 @@ func drive(id string, p Prop, tier string) int {
 		e.work = d
 	}
 	fmt.Printf("SEED %d property=%s tier=%s\n", e.seed, id, tier)
-	evPath := filepath.Join(e.verif, "evidence", id+".json")
+	evDir := filepath.Join(e.verif, "evidence")
+	if d := os.Getenv("SIM_EVIDENCE_DIR"); d != "" {
+		evDir = d // used when judging scratch copies (mutants) so that real evidence is not clobbered
+	}
+	evPath := filepath.Join(evDir, id+".json")
 	os.MkdirAll(filepath.Dir(evPath), 0755)
 
 	// 1. known findings: replay every open witness of this property
@@ -381,7 +385,11 @@ func drive(id string, p Prop, tier string) int {
 		if !okc {
 			return trouble("minimised case of class %s does not fail again in a fresh process (exit %d) - determinism bug in the machinery\n%s", v.rec.Class, cr.code, tail(cr.out, 2000))
 		}
-		dst := filepath.Join(e.verif, "replays", fmt.Sprintf("%s-%d-%d.json", id, e.seed, reported))
+		rpDir := filepath.Join(e.verif, "replays")
+		if d := os.Getenv("SIM_REPLAY_DIR"); d != "" {
+			rpDir = d
+		}
+		dst := filepath.Join(rpDir, fmt.Sprintf("%s-%d-%d.json", id, e.seed, reported))
 		os.MkdirAll(filepath.Dir(dst), 0755)
 		b, _ := os.ReadFile(minFile)
 		if v.race {
